@@ -272,7 +272,8 @@ func c01StopPoint(c *Ctx) {
 				c.Check(undef, "C01.c-one-stop-point", key, cs.In.Pos(), "no stop link in the selector and an undefined stop CID", "a stop CID is given although the selector carries no stop link: "+stop.String())
 				continue
 			}
-			lnk := sb["lnk"]
+			sp := c01SyncPoint(c, f, cs, nil, sb["lnk"])
+			lnk, stop := sp.lnk, sp.stop
 			// stop = phi(zero, lnk.(Link).Cid) with the Cid edge under lnk != nil, or directly lnk.Cid
 			ok := false
 			check := func(x *X) bool {
@@ -345,11 +346,16 @@ func c01SegmentLoop(c *Ctx) {
 		return
 	}
 	// the sync call inside a loop
+	// (the per-segment step may be an unexported helper called from the loop: the sync call is looked up through it;
+	// S is the block of the loop that executes the step, seg the sync call itself)
 	var seg *CallSite
-	for _, cs := range c.Calls(h, Invoke("dagsync.Syncer.Sync")) {
-		if cs.Fn == h && ReachableFromSucc(cs.In.Block(), cs.In.Block()) {
-			cs := cs
+	var segOuter ssa.Instruction
+	for _, st := range c.CallsInl(h, Invoke("dagsync.Syncer.Sync"), 2) {
+		o := st.Outer()
+		if o.Parent() == h && ReachableFromSucc(o.Block(), o.Block()) {
+			cs := st.CallSite
 			seg = &cs
+			segOuter = o
 		}
 	}
 	key := c.short(h.String()) + " › segment loop"
@@ -357,7 +363,37 @@ func c01SegmentLoop(c *Ctx) {
 		c.Unk("C01.e-loop-tests", key, h.Pos(), "no sync call inside a loop (segmented traversal not recognised)")
 		return
 	}
-	S := seg.In.Block()
+	S := segOuter.Block()
+	viaHelper := segOuter != seg.In
+	// a test "X == nil" where X is the value itself or, when the step is a helper, the helper's error result one of
+	// whose return sites hands X on
+	errTest := func(direct P) P {
+		return func(x *X, b Binds) bool {
+			if direct(x, b) {
+				return true
+			}
+			if !viaHelper {
+				return false
+			}
+			m, ok := Match(EqNil(Bind("e")), x)
+			if !ok {
+				return false
+			}
+			hc, _ := helperCall(m["e"])
+			if hc == nil || hc.V != ssa.Value(segOuter.(*ssa.Call)) {
+				return false
+			}
+			for _, a := range c.RetAlts(m["e"]) {
+				for _, l := range c.Leaves(a.Val, nil) {
+					// in the helper's own terms
+					if direct(&X{Op: "binop", Name: "==", Args: []*X{l, {Op: "nil"}}}, b) {
+						return true
+					}
+				}
+			}
+			return false
+		}
+	}
 	// loop header: the block dominating S that is the target of back edges from blocks reachable from S
 	var head *ssa.BasicBlock
 	for d := S; d != nil; d = d.Idom() {
@@ -387,8 +423,8 @@ func c01SegmentLoop(c *Ctx) {
 	}
 	nextCid := Field("nextSyncCid", Any())
 	tests := []test{
-		{"sync error", EqNil(Is(c.Result(*seg, 0))), false},
-		{"hook-signalled failure", EqNil(Field("err", Any())), false},
+		{"sync error", errTest(EqNil(Is(c.Result(*seg, 0)))), false},
+		{"hook-signalled failure", errTest(EqNil(Field("err", Any()))), false},
 		{"no next CID", EqNil(nextCid), true},
 		{"next CID undefined", Call("cid.Cid).Equals", nextCid, Op("global", "go-cid.Undef")), true},
 		{"stop CID defined", Bin("==", Op("param", ""), Op("global", "go-cid.Undef")), true}, // handled specially below
@@ -439,6 +475,18 @@ func c01SegmentLoop(c *Ctx) {
 	for i := 0; i+1 < len(testBlocks); i++ {
 		a, b := testBlocks[i], testBlocks[i+1]
 		if a == nil || b == nil {
+			continue
+		}
+		if a == b && viaHelper && i == 0 {
+			// one test of the helper's result covers both: inside the helper the sync's error is returned before the
+			// hook-signalled one is looked at
+			okOrd := false
+			for _, cs := range c.Calls(seg.In.Parent(), Invoke("dagsync.Syncer.Sync")) {
+				h0 := c.ErrPropagates(cs)
+				okOrd = h0.Kind == "checked-return" || h0.Kind == "returned-directly"
+			}
+			c.Check(okOrd, "C01.e-loop-tests", key+" › order: "+tests[i].name+" ≺ "+tests[i+1].name, posOf(b.Instrs[0]),
+				"the per-segment helper returns the sync's error first, the hook-signalled one otherwise", "the per-segment helper does not return the sync's error before the hook-signalled one")
 			continue
 		}
 		c.Check(a != b && a.Dominates(b), "C01.e-loop-tests", key+" › order: "+tests[i].name+" ≺ "+tests[i+1].name, posOf(b.Instrs[0]),
@@ -512,7 +560,7 @@ func c01SegmentLoop(c *Ctx) {
 		// the next segment's depth (the loop-carried value handed to the per-segment selector) takes only: the
 		// segment size, itself, or the remaining depth
 		var nd *ssa.Phi
-		for _, cs := range c.Calls(h, Call("selector.RecursionLimitDepth")) {
+		for _, cs := range c.CallsInl(h, Call("selector.RecursionLimitDepth"), 2) {
 			if len(cs.X.Args) == 1 {
 				if ph, ok := cs.X.Args[0].V.(*ssa.Phi); ok && ph.Block() == head {
 					nd = ph
@@ -573,7 +621,7 @@ func c01SegmentLoop(c *Ctx) {
 	// next segment starts at the hook-set CID, read before the reset
 	var reset ssa.Instruction
 	var readNext ssa.Instruction
-	for _, in := range S.Instrs {
+	for _, in := range seg.In.Block().Instrs {
 		if ci, ok := in.(ssa.CallInstruction); ok {
 			if r := c.Role("dagsync.seg.reset"); r != nil && ci.Common().StaticCallee() == r {
 				reset = in
@@ -614,9 +662,15 @@ func c01Choice(c *Ctx) {
 		if !isBuilt {
 			continue
 		}
-		lnk := sb["lnk"]
-		next := hcall.X.Args[2]
+		sp := c01SyncPoint(c, f, *hcall, sb["limit"], sb["lnk"])
+		lnk, next := sp.lnk, sp.next
 		key := f.Name
+		if sp.fn != f {
+			key = f.Name + " (via " + sp.fn.Name + ")"
+		}
+		callerF := f
+		f := sp.fn
+		_ = callerF
 		// f1: on every path with a stop link, the sync is guarded by stop.Cid != head
 		//     region: blocks where lnk != nil is known; the region's exits towards the sync must pass the comparison's false edge
 		var region *ssa.BasicBlock
@@ -630,7 +684,7 @@ func c01Choice(c *Ctx) {
 			}
 		}
 		if region == nil {
-			c.Bad("C01.f-head-equals-stop", key+" › stop-link region", hcall.In.Pos(), "no branch on 'a stop link exists' before the sync")
+			c.Bad("C01.f-head-equals-stop", key+" › stop-link region", sp.pos, "no branch on 'a stop link exists' before the sync")
 		} else {
 			cmp := Bin("==", Field("Cid", Is(lnk)), Any())
 			ok := true
@@ -641,7 +695,7 @@ func c01Choice(c *Ctx) {
 						continue
 					}
 					// escape edge b→s (towards the sync): must carry cmp == false
-					if !ReachableFrom(s)[hcall.In.Block()] {
+					if !ReachableFrom(s)[sp.target] {
 						continue
 					}
 					n++
@@ -671,7 +725,7 @@ func c01Choice(c *Ctx) {
 			c.Check(cmpOK, "C01.f-head-equals-stop", key+" › compares the head that is synced", hcall.In.Pos(), "the CID compared with the stop CID is the one handed to the sync", "the head compared with the stop CID is not the head that is synced")
 		}
 		// f2: limit sources
-		c01LimitSources(c, f, sb["limit"], lnk, key)
+		c01LimitSources(c, f, sp.limit, lnk, key)
 		// f3: stop link sources
 		c01StopSources(c, f, lnk, key)
 	}
@@ -1133,4 +1187,83 @@ func stockHook(c *Ctx) *ssa.Function {
 		out = fn
 	}
 	return out
+}
+
+// syncPoint is where a caller of the per-publisher sync routine has fixed what
+// to sync: normally the call itself; when the stop link, stop CID and limit are
+// results of an unexported helper that computed them (and the call is reached
+// only on one outcome of that helper), the helper's return site for that
+// outcome, with everything expressed in the helper's terms.
+type syncPoint struct {
+	fn     *Fn
+	target *ssa.BasicBlock
+	pos    token.Pos
+	lnk    *X
+	next   *X
+	stop   *X
+	limit  *X
+}
+
+func c01SyncPoint(c *Ctx, f *Fn, hcall CallSite, limit, lnk *X) syncPoint {
+	args := hcall.X.Args
+	sp := syncPoint{fn: f, target: hcall.In.Block(), pos: hcall.In.Pos(), lnk: lnk, next: args[2], stop: args[len(args)-1], limit: limit}
+	call, idx := helperCall(lnk)
+	if call == nil {
+		return sp
+	}
+	alts := c.RetAlts(strip(lnk))
+	if len(alts) == 0 {
+		return sp
+	}
+	keep := c.feasible(hcall.In.Block(), call, idx, len(alts))
+	var R *ssa.Return
+	n := 0
+	for i, k := range keep {
+		if k {
+			R = alts[i].Ret
+			n++
+		}
+	}
+	obj, _ := call.Callee.Object().(*types.Func)
+	if n != 1 || obj == nil {
+		return sp
+	}
+	hf := c.fnOf(obj)
+	ci, _ := call.V.(ssa.CallInstruction)
+	if hf == nil || ci == nil {
+		return sp
+	}
+	env := c.callEnv(ci, call.Callee, nil)
+	inHelper := func(x *X) *X {
+		if x == nil {
+			return nil
+		}
+		if h2, j := helperCall(x); h2 != nil && h2.V == call.V && j < len(R.Results) {
+			return c.RetX(R, j)
+		}
+		// a caller value handed to the helper: the parameter that carries it
+		for p, a := range env {
+			if Same(a, x) {
+				return c.E(p)
+			}
+		}
+		// a projection of a helper result (e.g. the stop CID taken from the returned link)
+		if len(x.Args) > 0 {
+			y := *x
+			y.Args = make([]*X, len(x.Args))
+			ch := false
+			for i, a := range x.Args {
+				y.Args[i] = a
+				if h2, j := helperCall(a); h2 != nil && h2.V == call.V && j < len(R.Results) {
+					y.Args[i] = c.RetX(R, j)
+					ch = true
+				}
+			}
+			if ch {
+				return &y
+			}
+		}
+		return x
+	}
+	return syncPoint{fn: hf, target: R.Block(), pos: R.Pos(), lnk: inHelper(lnk), next: inHelper(sp.next), stop: inHelper(sp.stop), limit: inHelper(limit)}
 }
